@@ -10,6 +10,12 @@ EXTRA = {
             ("SafeC.copyLoop_disjoint_bounded", "SafeC.Proofs.CopyFunctional", "lemma", "bounded variant")],
     "C05": [("SafeC.strncpyG_two_handlers", "SafeC.Proofs.CopyWrappers", "witness", "for max > RSIZE_MAX_STR the inner strnlen_s reports too: why the wrappers need max <= RSIZE_MAX_STR")],
     "C07": [("SafeC.copyLoop_overlap", "SafeC.Proofs.CopyOverlap", "lemma", "the loop reaches the bumper after exactly g iterations")],
+    "C20": [("SafeC.Alloc.exec_bind", "SafeC.Proofs.Alloc", "meta", "exec of a sequential composition = exec of the parts (every Prog of the allocation machine)"),
+            ("SafeC.Alloc.exec_mono", "SafeC.Proofs.Alloc", "meta", "request, failure and handler counters never decrease; a cleared dest stays cleared"),
+            ("SafeC.Alloc.engine_spec", "SafeC.Proofs.Alloc", "lemma", "every run of the printf engine over any list of format pieces (induction): returns with live blocks unchanged, or is the %ls conversion-failure leak, or the unchecked format-copy null dereference"),
+            ("SafeC.Alloc.reorderLoop_wp", "SafeC.Proofs.AllocNorm", "lemma", "loop invariant of wcsnorm_reorder_s (live = seq_ext ++ entry blocks) over any mark pattern: repaired code under every oracle, code as it is when no request fails"),
+            ("SafeC.Alloc.composeLoop_wp", "SafeC.Proofs.AllocNorm", "lemma", "the same for wcsnorm_compose_s over any (mark?, composed?) pattern"),
+            ("SafeC.Alloc.normProg_wp", "SafeC.Proofs.AllocNorm", "lemma", "wcsnorm_s: scratch buffer + reorder + compose composed")],
     "C08": [("SafeC.nullSlack_ok", "SafeC.Lemmas", "lemma", "both slack strategies (memset > 0x20, byte loop) zero the whole tail")],
 }
 
